@@ -11,6 +11,7 @@ mod rec_csc;
 mod rec_equil;
 mod replay_qdldl;
 mod replay_presolve;
+mod replay_update;
 
 use rand::rngs::StdRng;
 use rand::{Rng, SeedableRng};
@@ -88,6 +89,10 @@ fn main() {
             let v = load_case(&args);
             let p: problem::Problem = serde_json::from_value(v["problem"].clone()).unwrap();
             write_lines(&args.get("out", "equil.ndjson"), &[rec_equil::event(0, &p)]);
+        }
+        "update-replay" => {
+            let r = replay_update::replay_file(&args.get("in", "b.ndjson"), &args.get("out", "m.ndjson"), args.num("seed", 1), args.num("every", 50) as usize);
+            println!("{}", r);
         }
         "csc" => {
             let (lines, meta) = rec_csc::record(args.num("seed", 1), args.get("tier", "quick") == "thorough");
